@@ -52,6 +52,11 @@ func needles(m string) map[string][]byte {
 		out[fmt.Sprintf("base64-std/align%d", a)] = []byte(base64.StdEncoding.EncodeToString(part))
 		out[fmt.Sprintf("base64-url/align%d", a)] = []byte(base64.URLEncoding.EncodeToString(part))
 	}
+	// the first eight bytes alone (a digest-looking field that carries a prefix of the value)
+	if len(b) >= 8 {
+		out["hex-of-first-8-bytes"] = []byte(hex.EncodeToString(b[:8]))
+		out["base64-of-first-9-bytes"] = []byte(base64.StdEncoding.EncodeToString(b[:9]))
+	}
 	out["hex"] = []byte(hex.EncodeToString(b))
 	out["HEX"] = []byte(strings.ToUpper(hex.EncodeToString(b)))
 	js, _ := json.Marshal(m)
